@@ -52,3 +52,29 @@ Theorem c14_load_single_string_prev :
   /\ (dget (k_prev mc) d = None -> load mc d = Some (mkpv j i t ts [] a n)).
 Proof. exact load_single_string_prev. Qed.
 Print Assumptions c14_load_single_string_prev.
+
+(** The file layer (otel_to_pv.py:114-157, pv_to_puml.py folder reading), model V.Pv.Files; tied to the code by the
+    file-name check of harness/c14.py. *)
+From Coq Require Import Permutation.
+From V Require Import Pv.Files Pv.FilesProofs.
+
+Theorem c14_seq_file_name_inj : forall k k' : nat, seq_file_name k = seq_file_name k' -> k = k'.
+Proof. exact seq_file_name_inj. Qed.
+Print Assumptions c14_seq_file_name_inj.
+
+Theorem c14_save_jobs_names_nodup : forall (job : Type) (jobs : list job), NoDup (map fst (save_jobs job jobs)).
+Proof. exact save_jobs_names_nodup. Qed.
+Print Assumptions c14_save_jobs_names_nodup.
+
+(** whatever order the file system lists the folder in, pv2puml reads exactly the saved jobs, each once *)
+Theorem c14_read_folder_perm : forall (job : Type) (jobs : list job) (listing : list string),
+  Permutation listing (map fst (save_jobs job jobs)) ->
+  Permutation (read_folder job (save_jobs job jobs) listing) jobs.
+Proof. exact read_folder_perm. Qed.
+Print Assumptions c14_read_folder_perm.
+
+Theorem c14_read_folder_missing_file_refuted : exists (jobs : list nat) listing,
+  incl listing (map fst (save_jobs nat jobs)) /\ NoDup listing /\
+  ~ Permutation (read_folder nat (save_jobs nat jobs) listing) jobs.
+Proof. exact read_folder_missing_file_refuted. Qed.
+Print Assumptions c14_read_folder_missing_file_refuted.
